@@ -396,6 +396,21 @@ func (s *fsm13) handleReceivedFlight( //nolint:cyclop
 		return s.handlePreviousFlightRetransmit(ctx, conn, received.RecordsToACK, ackResult)
 	}
 
+	if s.state.IsClient && s.currentFlight.IsLastSendFlight() && !received.IsRetransmit {
+		// The server only sends a new handshake message after it has processed
+		// the client's final flight, so that flight is implicitly acknowledged
+		// even if the ACK itself was lost (RFC 9147 Section 7.1). Hand the
+		// message to post-handshake processing instead of the flight parser.
+		s.retransmit = false
+		s.flightACK.reset()
+		s.postHandshake.initialize()
+		if err := s.postHandshake.handlePostHandshakeReceive(ctx, conn, received); err != nil {
+			return receivedFlightTransition{}, err
+		}
+
+		return receivedFlightTransition{state: StateFinished}, nil
+	}
+
 	nextFlight, err := s.parseReceivedFlight(ctx, conn, s.currentFlight)
 	if err != nil {
 		return receivedFlightTransition{}, err
